@@ -38,7 +38,7 @@ package config
 //@ func (CertificateContent).HashSum returns (res)
 //@   props C13 C10 C11
 //@   uses hash.smt2
-//@   ensures @C13,C10,C11 bytes(res) == digest(1, jsonBytes(deep(typed(blankV(c), "github.com/wokdav/gopki/generator/config.CertificateContent"))))
+//@   ensures @C13,C10,C11 bytes(res) == digest(3, jsonBytes(deep(typed(blankV(c), "github.com/wokdav/gopki/generator/config.CertificateContent"))))
 
 // Lemmas over the spec of the hash input (no code involved): which edits the hash cannot see, which it must see.
 
